@@ -6,6 +6,7 @@ import os
 import re
 import vlib
 import syslib
+import looplib
 
 
 RESYNC_LOSS = 4
@@ -67,14 +68,53 @@ def accepted_and_delivered(hist, gen, out):
     return None, st
 
 
+def loop_oracle(rep, ctx):
+    """the real select loops of both programs in virtual time (see looplib.py)"""
+    if 'loopsim' not in ctx.exe:
+        return
+    n = 1200 if rep.tier == 'quick' else 20000
+    cases, stats = looplib.gen(rep.seed, n, tag='c02loop')
+    corpus = []
+    cp = os.path.join(vlib.VERIF, 'corpus', 'C02')
+    if os.path.isdir(cp):
+        for fn in sorted(os.listdir(cp)):
+            if fn.endswith('.loop'):
+                corpus += [l.split() for l in open(os.path.join(cp, fn)) if l.strip() and not l.startswith('#')]
+    cases = corpus + cases
+    res = looplib.run_all(ctx.exe['loopsim'], cases)
+    delivered = 0
+    bad = {}
+    for a, (rc, out) in zip(cases, res):
+        kind, txt = looplib.classify(rc, out)
+        delivered += looplib.counters(out)
+        if kind in ('liveness', 'integrity') and 'loop' not in bad:
+            bad['loop'] = (a, kind, txt)
+        elif kind in ('handshake', 'crash') and 'mach' not in bad:
+            bad['mach'] = (a, kind, txt)
+    rep.cov['loop_oracle'] = dict(runs=len(cases), corpus=len(corpus), distribution=stats, packets_delivered_in_checked_windows=delivered,
+                                  rule='real client_tunnel()/tunnel() loops in virtual time; per run a configuration, periodic offers on both tun '
+                                       'devices, 0-2 fault windows; after the last fault + 30 s every accepted packet must reach the peer tun '
+                                       'exactly once within 10 s and the tun devices must keep being read')
+    rep.cov['evaluations'] = rep.cov.get('evaluations', 0) + len(cases)
+    if 'loop' in bad:
+        a, kind, txt = bad['loop']
+        rep.add_violation('loop:' + ('wedge' if kind == 'liveness' else 'integrity'),
+                          'real select loops in virtual time: ' + txt,
+                          dict(kind='loop', driver='loopsim', case=' '.join(a), expected='delivery resumes after the fault windows; exactly once; tun devices read'))
+    if 'mach' in bad:
+        a, kind, txt = bad['mach']
+        ctx.broken.append(('loopsim', 'loop simulator %s on %s: %s' % (kind, ' '.join(a), txt)))
+
+
 def check(rep):
-    ctx = vlib.prepare(rep, harnesses={'sys': syslib.SYS, 'sysreal': syslib.SYS_REAL}, sanitize=False, model='SYS')
+    ctx = vlib.prepare(rep, harnesses={'sys': syslib.SYS, 'sysreal': syslib.SYS_REAL, 'loopsim': looplib.LOOPSIM}, sanitize=False, model='SYS')
+    loop_oracle(rep, ctx)
     nh = 160 if rep.tier == 'quick' else 2500
     hs, gens = syslib.gen_clean(rep.seed, nh, 80, 12, tag='c02')
     rep.cov['rule'] = ('random configurations; per schedule an optional fault prefix (loss, duplication, re-ordering, relay re-sends, ticks), all '
                        'in-flight datagrams lost, a settle phase, then a clean phase: packets offered on both sides, every datagram delivered '
                        'promptly and in order, timers only when idle. distinct = distinct schedules; non-trivial = schedules with >= 1 packet accepted in the clean phase')
-    rep.cov['evaluations'] = sum(h.count(' ; ') for h in hs)
+    rep.cov['evaluations'] = rep.cov.get('evaluations', 0) + sum(h.count(' ; ') for h in hs)
     if 'sysreal' in ctx.exe:
         os.environ['VERIF_FULL'] = '1'
         rc, implf, err = vlib.parallel_run_cases(ctx.exe['sysreal'], hs, ctx.work, 'implfull')
@@ -114,7 +154,17 @@ def check(rep):
     return rep
 
 
+def replay_loop(rp):
+    rep = vlib.Report('C02', 'quick', rp.get('seed', 1))
+    ctx = vlib.prepare(rep, harnesses={'loopsim': looplib.LOOPSIM}, sanitize=False, prove_it=False, model='SYS')
+    rc, out = looplib.run_one(ctx.exe['loopsim'], rp['case'].split())
+    print(out[-2500:])
+    return 1 if rc else 0
+
+
 def replay(rp):
+    if rp.get('kind') == 'loop':
+        return replay_loop(rp)
     rep = vlib.Report('C02', 'quick', rp.get('seed', 1))
     ctx = vlib.prepare(rep, harnesses={'sys': syslib.SYS_REAL}, sanitize=False, prove_it=False, model='SYS')
     case = rp.get('case')
